@@ -1547,3 +1547,108 @@ def table_rules(run, rule, ast):
                      detail={str(k): sorted(v) for k, v in res.items()})
         if not ok:
             run.violation(rule, "compiler::install_gv|cell-values", "v-table cells receive %s (uni/multi x first/other parameter); the walk expects a definition pointer, table base + group, group number" % {str(k): sorted(v) for k, v in res.items()}, (f["file"], el[0]["l"]))
+
+
+# ---------------------------------------------------------------------------
+# (13) best(): the per-pair step of the incremental elimination
+
+def best_rules(run, rule, ast):
+    """For a new candidate s and a member b of the running best set the step must be:
+         s more specific than b  -> b (and only b) is erased, the scan continues;
+         b more specific than s  -> s is dropped, the scan stops;
+         neither                 -> next member;
+       and s is appended afterwards iff it was not dropped. (This is the step; that the fold is order
+       independent for a non-transitive relation is NOT decided.)"""
+    fs = by_name(ast, "best")
+    if not fs:
+        raise common.AnalysisBroken("compiler<P>::best not instantiated")
+    for f in fs:
+        body = f["body"]
+        outer = [n for n in body.get("c") or [] if n.get("k") == "CXXForRangeStmt"]
+        decls = [d for n in body.get("c") or [] if n.get("k") == "DeclStmt" for d in n["decls"]]
+        if len(outer) != 1 or not decls:
+            run.broken.append("%s: not in the form 'result vector; for each candidate ...; return'" % short(f))
+            continue
+        res = decls[0]["did"]
+        spec = outer[0]["var"]["did"]
+        ob = outer[0]["body"]
+        inner = [n for n in ob.get("c") or [] if n.get("k") in ("ForStmt", "WhileStmt")]
+        cand = [d for n in ob.get("c") or [] if n.get("k") == "DeclStmt" for d in n["decls"]]
+        if len(inner) != 1:
+            run.broken.append("%s: no single inner scan over the running best set" % short(f))
+            continue
+        lp = inner[0]
+        it = lp["init"]["decls"][0]["did"] if lp.get("init") and lp["init"].get("k") == "DeclStmt" else None
+        cand_did = cand[0]["did"] if cand else None
+
+        def rel_of(c):
+            """'s>b' / 'b>s' for a call is_more_specific(x, y)"""
+            c0 = astq.strip(c)
+            if c0.get("k") == "CallExpr" and (c0.get("callee") or "").endswith("::is_more_specific"):
+                a0, a1 = astq.strip(c0["c"][1]), astq.strip(c0["c"][2])
+
+                def role(x):
+                    if x.get("k") == "DeclRefExpr" and x["ref"]["did"] in (spec, cand_did):
+                        return "s"
+                    if any(y.get("k") == "DeclRefExpr" and y["ref"]["did"] == it for y in astq.walk(x)):
+                        return "b"
+                    return "?"
+                r = role(a0) + ">" + role(a1)
+                return r if r in ("s>b", "b>s") else None
+            return None
+        table = {}
+        unknown = False
+        for case in ("s>b", "b>s", "none"):
+            def decide(c, case=case):
+                r = rel_of(c)
+                if r is None:
+                    return None
+                return r == case
+
+            def want(n):
+                k = n.get("k")
+                if k in ("BinaryOperator", "CXXOperatorCallExpr") and (n.get("op") == "=" or n.get("oop") == "="):
+                    return True
+                if k in ("UnaryOperator", "CXXOperatorCallExpr") and (n.get("op") == "++" or n.get("oop") == "++"):
+                    return True
+                if k == "CXXMemberCallExpr" and not n.get("cconst"):
+                    return True
+                return False
+            ps = astq.enum_paths(lp["body"], decide, want)
+            if len(ps) != 1:
+                unknown = True
+                break
+            acts = []
+            for k0, n in ps[0]["events"]:
+                t = astq.text(n)
+                if any(x.get("k") == "CXXMemberCallExpr" and (x.get("callee") or "").endswith("::erase") for x in astq.walk(n)):
+                    er = [x for x in astq.walk(n) if x.get("k") == "CXXMemberCallExpr" and (x.get("callee") or "").endswith("::erase")][0]
+                    one = len(er["c"]) == 2 and any(y.get("k") == "DeclRefExpr" and y["ref"]["did"] == it for y in astq.walk(er["c"][1]))
+                    acts.append("erase-that-member" if one else "erase-other:" + t[:60])
+                elif any(x.get("k") == "CXXMemberCallExpr" and re.search(r"::(clear|resize|assign|pop_back)$", x.get("callee") or "") for x in astq.walk(n)):
+                    acts.append("shrinks-the-set:" + t[:60])
+                elif n.get("k") in ("BinaryOperator",) and astq.strip(n["c"][0]).get("k") == "DeclRefExpr" and astq.strip(n["c"][0])["ref"]["did"] == cand_did:
+                    v = astq.strip(n["c"][1])
+                    acts.append("drop-candidate" if v.get("k") in ("CXXNullPtrLiteralExpr", "GNUNullExpr") or (v.get("k") == "IntegerLiteral" and v.get("v") == 0) else "candidate=" + t[:40])
+                elif n.get("op") == "++" or n.get("oop") == "++":
+                    acts.append("next-member")
+                else:
+                    acts.append("other:" + t[:60])
+            if ps[0].get("jump") == "BreakStmt":
+                acts.append("stop-scan")
+            table[case] = acts
+        if unknown:
+            run.broken.append("%s: the per-pair step of best() is not a deterministic function of the relation between the candidate and the member" % short(f))
+            continue
+        exp = {"s>b": ["erase-that-member"], "b>s": ["drop-candidate", "stop-scan"], "none": ["next-member"]}
+        ok = table == exp
+        # the loop header itself must not advance (the body does) and the candidate is appended iff kept
+        tail = [n for n in ob.get("c") or [] if n.get("k") == "IfStmt"]
+        push_ok = len(tail) == 1 and astq.strip(tail[0]["cond"]).get("k") == "DeclRefExpr" and astq.strip(tail[0]["cond"])["ref"]["did"] == cand_did and any(
+            x.get("k") == "CXXMemberCallExpr" and (x.get("callee") or "").endswith("::push_back") and any(y.get("k") == "DeclRefExpr" and y["ref"]["did"] == res for y in astq.walk(x["c"][0])) for x in astq.walk(tail[0]["then"])) and not tail[0].get("else")
+        run.instance(rule, "%s: per-pair step %s; candidate appended iff not dropped: %s" % (short(f), table, push_ok), (f["file"], lp["l"]), ok=ok and push_ok)
+        if not ok:
+            diffs = ["%s: %s (needed: %s)" % (k, table.get(k), exp[k]) for k in exp if table.get(k) != exp[k]]
+            run.violation(rule, "compiler::best|step|%s" % ",".join(k for k in exp if table.get(k) != exp[k]), "the elimination step of best() deviates: %s" % "; ".join(diffs), (f["file"], lp["l"]))
+        elif not push_ok:
+            run.violation(rule, "compiler::best|append", "a candidate that survived the scan is not appended to the best set exactly when it was not dropped", (f["file"], ob["l"]))
